@@ -76,7 +76,7 @@ def prepare_matrix(work, tag, families=None, cfg=None, only=None):
             EDGE_REJECTED.append({"entry": j[3][0].name, "config": tag,
                                   "message": (msg[0] if msg else err.strip()[-160:])[:200]})
             continue
-        if j[0] == "gen" and "panicked" in err:
+        if j[0] in ("gen", "shuf") and "panicked" in err:
             # A generated program made the *compiler* panic (an internal compiler error on an
             # error-free program - C08 territory, not a property claimed here). The file is split
             # per generated program; programs that still panic are dropped and listed.
@@ -85,7 +85,8 @@ def prepare_matrix(work, tag, families=None, cfg=None, only=None):
             fam, src, dump_path, part = j
             progs = {}
             for e in part:
-                progs.setdefault(e.name.rsplit("_", 1)[0], []).append(e)
+                progs.setdefault(e.name.rsplit("_", 1)[0] if fam == "gen" else e.name, []).append(e)
+            pjobs = []
             for pk, (pname, es) in enumerate(progs.items()):
                 stem = os.path.basename(src)[:-6] + f"_p{pk}"
                 psrc = os.path.join(work, stem + ".cairo")
@@ -93,8 +94,10 @@ def prepare_matrix(work, tag, families=None, cfg=None, only=None):
                     f.write(matrix.HEADER + EXTRA_HEADERS.get(fam, ""))
                     for e in es:
                         f.write(e.source())
-                pdump = os.path.join(work, f"{stem}.{tag}.json")
-                ok2, err2 = common.dump(psrc, cfg, pdump)
+                pjobs.append((pname, es, psrc, os.path.join(work, f"{stem}.{tag}.json")))
+            with ThreadPoolExecutor(max_workers=common.NPROC) as ex:
+                pres = list(ex.map(lambda pj: common.dump(pj[2], cfg, pj[3]), pjobs))
+            for (pname, es, psrc, pdump), (ok2, err2) in zip(pjobs, pres):
                 if ok2:
                     out_jobs.append((fam, psrc, pdump, es))
                 else:
@@ -566,7 +569,7 @@ GAS_CFGS_FULL = GAS_CFGS_QUICK + [
 
 # quick tiers leave out the families another property's quick tier already analyses
 CORE_FAMS = ["arith", "cast", "felt", "bool", "wide", "bounded", "plumb", "gas", "hash", "spec",
-             "bigap", "flow", "edge"]
+             "bigap", "flow", "edge", "shuf"]
 
 
 def fams_for(args, quick):
@@ -604,7 +607,7 @@ def run_c01(args):
     os.environ["VERIF_SEED"] = str(args.seed)
     return generic(args, "C01", workers.c06_worker, [("default", {"gas": False})], confirm_c06,
                    level="translation_validation",
-                   families=args.families or ["gen", "plumb", "fold", "spec", "flow"],
+                   families=args.families or ["gen", "shuf", "plumb", "fold", "spec", "flow"],
                    extra_task=lambda fam, e: (fam, 0))
 
 
@@ -634,7 +637,7 @@ def run_c05(args):
     os.environ["VERIF_SEED"] = str(args.seed)
     work = common.workdir("C05" + ("_adhoc%d" % os.getpid() if (args.only or args.families) else ""))
     build_s = common.build_tool()
-    fams = args.families or ["gen", "plumb", "fold", "spec", "flow"]
+    fams = args.families or ["gen", "shuf", "plumb", "fold", "spec", "flow"]
     # compiled the way `cairo-run` does without --available-gas (no gas paths)
     base_cfg = {"optimizations": "disabled", "gas": False}
     variants = C05_VARIANTS_FULL if tier == "thorough" else C05_VARIANTS_QUICK
@@ -769,6 +772,11 @@ def main():
                     help="rewrite expected/<prop>.json from this run (unchanged tree only)")
     ap.add_argument("--seed", type=int, default=int(os.environ.get("VERIF_SEED", "0")))
     args = ap.parse_args()
+    os.environ["VERIF_SEED"] = str(args.seed)
+    if not os.environ.get("VERIF_SHUF_FUNCS"):
+        many = args.prop in ("C01", "C05")
+        os.environ["VERIF_SHUF_FUNCS"] = (("4000" if many else "800") if args.tier == "thorough"
+                                          else ("400" if many else "150"))
     if args.prop == "C07":
         import c07
         return c07.main(args)
